@@ -16,7 +16,7 @@ EXTRA = {"C01-m11": ["C04"], "C04-m11": ["C11"], "C05-m11": ["C06"], "C13-m12": 
          "C13-m14": ["C14"], "C08-m14": ["C10"], "C20-m13": ["C11", "C03"], "C03-m14": ["C20"], "C09-m14": ["C11"],
          "C02-m13": ["C01", "C04"], "C01-m13": ["C03"],
          "C01-m16": ["C03"], "C02-m15": ["C12"], "C05-m15": ["C06"], "C05-m16": ["C06"], "C07-m16": ["C13"], "C11-m16": ["C07"],
-         "C19-m15": ["C03"], "C19-m16": ["C02"], "C12-m17": ["C15"]}
+         "C19-m15": ["C03"], "C19-m16": ["C02"], "C12-m17": ["C15"], "C04-m18": ["C15", "C12"]}
 
 
 def main():
